@@ -458,7 +458,10 @@ class Emitter:
         ws = [w for w in w1 + [x for x in w2 if x not in w1] if w not in l1 and w not in l2]
         if not ws:
             return
-        # inside pointwise bodies element writes are locals named <vec>_at
+        # inside pointwise bodies element writes are locals named <vec>_at: a conditional element write would have to merge
+        # that local, which this emitter does not do -- refuse rather than drop the write
+        if ctx.loopvars and any(self.is_vec_name(w) for w in ws):
+            raise TieBroken("conditional element write inside a pointwise loop (`if .. { v[i] = .. }`) is not supported")
         def names(ws_):
             return ws_
         self.emit("let %s := if %s then" % (tuple_of(ws), expr(ctx, cond)), depth)
